@@ -7,6 +7,7 @@ import (
 	"errors"
 	"fmt"
 	"io"
+	"sync"
 
 	sdb "github.com/alicebob/sqlittle/db"
 )
@@ -147,18 +148,27 @@ type Trace struct {
 	FailAt int                                 // optional: k-th page read returns an error (after the real read)
 	Reads  int
 	Fired  bool
+	mu     sync.Mutex // Reads/FailAt/Fired may be touched from the producer goroutine and the scheduler
 }
+
+func (t *Trace) SetFailAt(k int)  { t.mu.Lock(); t.FailAt = k; t.mu.Unlock() }
+func (t *Trace) ArmFailAfter(k int) { t.mu.Lock(); t.FailAt = t.Reads + k; t.mu.Unlock() }
+func (t *Trace) HasFired() bool   { t.mu.Lock(); defer t.mu.Unlock(); return t.Fired }
+func (t *Trace) ReadCount() int   { t.mu.Lock(); defer t.mu.Unlock(); return t.Reads }
+func (t *Trace) FailPos() int     { t.mu.Lock(); defer t.mu.Unlock(); return t.FailAt }
 
 var _ sdb.VerifPager = (*Trace)(nil)
 
 func (t *Trace) Page(n int, pagesize int) ([]byte, error) {
 	b, err := t.P.Page(n, pagesize)
+	t.mu.Lock()
 	t.Reads++
 	if t.FailAt > 0 && t.Reads == t.FailAt {
 		err = ErrInjected
 		b = nil
 		t.Fired = true
 	}
+	t.mu.Unlock()
 	if t.Event != nil {
 		t.Event("page", n, err)
 	}
